@@ -138,7 +138,16 @@ func (p *Proxy) SetAttr(name string, value Object) error {
 			if result == nil {
 				field.SetZero()
 			} else {
-				field.Set(reflect.ValueOf(result))
+				rv := reflect.ValueOf(result)
+				// A struct-valued field is converted through its pointer type
+				if field.Kind() == reflect.Struct && rv.Kind() == reflect.Ptr && !rv.IsNil() {
+					rv = rv.Elem()
+				}
+				if !rv.Type().AssignableTo(field.Type()) {
+					return errz.TypeErrorf("type error: cannot assign %s to field %s of type %s",
+						rv.Type(), name, field.Type())
+				}
+				field.Set(rv)
 			}
 			return nil
 		} else {
@@ -210,7 +219,14 @@ func (p *Proxy) call(ctx context.Context, m *GoMethod, args ...Object) Object {
 		if err != nil {
 			return TypeErrorf("type error: failed to convert argument %d in %s() call: %s", i, methodName, err)
 		}
-		inputs = append(inputs, reflect.ValueOf(input))
+		inputValue := reflect.ValueOf(input)
+		if paramType := m.method.Type.In(i); !inputValue.IsValid() {
+			inputValue = reflect.Zero(paramType)
+		} else if !inputValue.Type().AssignableTo(paramType) {
+			return TypeErrorf("type error: failed to convert argument %d in %s() call: %s is not assignable to %s",
+				i, methodName, inputValue.Type(), paramType)
+		}
+		inputs = append(inputs, inputValue)
 		argIndex++
 	}
 	if len(inputs) < minArgs {
